@@ -4,7 +4,7 @@
 From Coq Require Import List Arith Bool ZArith String.
 From PV Require Import Base.Exn Base.Values Base.Ann Model.CheckerCfg Model.Checker Spec.Conforms
   Gen.CheckerTables Proofs.CheckerGood Proofs.CheckerRefine Proofs.CheckerSpec Proofs.CheckerTop
-  Base.PyCall Model.PedanticCfg Model.Pedantic Gen.Pedantic Proofs.PedanticBase Proofs.PedanticWitness Proofs.PedanticC06.
+  Base.PyCall Model.PedanticCfg Model.Pedantic Gen.Pedantic Proofs.PedanticBase Proofs.PedanticWitness Proofs.PedanticC06 Proofs.PedanticC08 Proofs.PedanticC06Exact.
 Import ListNotations.
 
 Definition cfg := Gen.CheckerTables.checker_cfg.
@@ -79,6 +79,68 @@ Proof.
   apply (rejecting_return_annotation _ _ consumes C06_generated_protocol_good f c bd a Hr). now apply bare_always_rejects.
 Qed.
 Print Assumptions C06_bare_return_annotation.
+
+(* ---- ... with the CLASS of the exception, as the statement words it ("raises PedanticTypeCheckException") -------
+   guards, each the domain of another property or an open finding: the call does not trip the receiver / source-text
+   indexing (machinery_ok: K-C08-* findings), it is a keyword call the wrapper lets through (assert_uses_kwargs: otherwise
+   PedanticCallWithArgsException, C05), every OTHER annotation of the signature is in the supported vocabulary or bare (so
+   that an earlier parameter can only fail with PedanticTypeCheckException, not with a TypeVar mismatch); for the return
+   side also that Python binds the call (same_positionals, twin_accepts: C08).  Then: a missing or bare PARAMETER
+   annotation ends in an exception derived from PedanticTypeCheckException and the body has not run; a missing or bare
+   RETURN annotation ends in such an exception or in the exception the body itself raised. *)
+Definition okann (ctx : nat -> option cls) (a : ann) : Prop := supported ctx a = true \/ bare a = true.
+
+Lemma model_rejects_with_type_check : forall ctx hook a, okann ctx a -> forall v tv e tv',
+  assert_matches cfg ctx hook a v tv = (Raise e, tv') -> derives e PTypeCheckC = true.
+Proof.
+  intros ctx hook a [Hs | Hb] v tv e tv' H.
+  - rewrite (assert_pure cfg good ctx hook a Hs v tv) in H. destruct (CheckerGood.chk cfg ctx a v); inversion H. apply (gf_mismatch cfg good).
+  - destruct (C06_bare_rejected_for_all_values ctx hook a Hb v tv) as [r [Hr Hd]]. rewrite Hr in H. inversion H; subst. exact Hd.
+Qed.
+
+Theorem C06_missing_param_annotation_exact_partial : forall ctx hook consumes f c bd,
+  machinery_ok f c -> assert_uses_kwargs Gen.Pedantic.pedantic_cfg f c = Ok tt -> anns_ok (okann ctx) f ->
+  missing_named f \/ missing_varpos f \/ missing_varkw f ->
+  raises_tc (fst (run Gen.Pedantic.pedantic_cfg (assert_matches cfg ctx hook) consumes f c bd))
+  /\ snd (run Gen.Pedantic.pedantic_cfg (assert_matches cfg ctx hook) consumes f c bd) = [].
+Proof.
+  intros ctx hook consumes.
+  exact (missing_param_annotation_exact _ _ consumes C06_generated_protocol_good (okann ctx) (model_rejects_with_type_check ctx hook)).
+Qed.
+Print Assumptions C06_missing_param_annotation_exact_partial.
+
+Theorem C06_bare_param_annotation_exact_partial : forall ctx hook consumes f c bd,
+  machinery_ok f c -> assert_uses_kwargs Gen.Pedantic.pedantic_cfg f c = Ok tt -> anns_ok (okann ctx) f ->
+  (exists p a, In p (filter (fun p => negb (is_star p)) (params_without_self f)) /\ p_ann p = Some a /\ bare a = true) ->
+  raises_tc (fst (run Gen.Pedantic.pedantic_cfg (assert_matches cfg ctx hook) consumes f c bd))
+  /\ snd (run Gen.Pedantic.pedantic_cfg (assert_matches cfg ctx hook) consumes f c bd) = [].
+Proof.
+  intros ctx hook consumes f c bd Hm Hkw Hok [p [a [Hin [Hp Hb]]]].
+  apply (rejecting_param_annotation_exact _ _ consumes C06_generated_protocol_good (okann ctx) (model_rejects_with_type_check ctx hook)); try assumption.
+  exists p, a. repeat split; try assumption. now apply bare_always_rejects.
+Qed.
+Print Assumptions C06_bare_param_annotation_exact_partial.
+
+Theorem C06_missing_return_annotation_exact_partial : forall ctx hook consumes f c bd,
+  machinery_ok f c -> assert_uses_kwargs Gen.Pedantic.pedantic_cfg f c = Ok tt -> anns_ok (okann ctx) f ->
+  same_positionals Gen.Pedantic.pedantic_cfg f c -> twin_accepts f c -> f_ret f = None ->
+  raises_tc_or_body bd (fst (run Gen.Pedantic.pedantic_cfg (assert_matches cfg ctx hook) consumes f c bd)).
+Proof.
+  intros ctx hook consumes.
+  exact (missing_return_annotation_exact _ _ consumes C06_generated_protocol_good (okann ctx) (model_rejects_with_type_check ctx hook)).
+Qed.
+Print Assumptions C06_missing_return_annotation_exact_partial.
+
+Theorem C06_bare_return_annotation_exact_partial : forall ctx hook consumes f c bd a,
+  machinery_ok f c -> assert_uses_kwargs Gen.Pedantic.pedantic_cfg f c = Ok tt -> anns_ok (okann ctx) f ->
+  same_positionals Gen.Pedantic.pedantic_cfg f c -> twin_accepts f c -> f_ret f = Some a -> bare a = true ->
+  raises_tc_or_body bd (fst (run Gen.Pedantic.pedantic_cfg (assert_matches cfg ctx hook) consumes f c bd)).
+Proof.
+  intros ctx hook consumes f c bd a Hm Hkw Hok Hs Ht Hr Hb.
+  apply (rejecting_return_annotation_exact _ _ consumes C06_generated_protocol_good (okann ctx) (model_rejects_with_type_check ctx hook) f c bd a);
+    try assumption. now apply bare_always_rejects.
+Qed.
+Print Assumptions C06_bare_return_annotation_exact_partial.
 
 (* KNOWN FINDING K-C06-variadic (open): the statement is FALSE for a bare generic on a variadic parameter when no
    extra value is supplied - the annotation is never looked at: def f( *args: list) -> None; f() runs the body *)
